@@ -4,6 +4,7 @@ import (
 	"fmt"
 	"go/token"
 	"go/types"
+	"sort"
 	"strings"
 
 	"crverif/internal/an"
@@ -969,10 +970,36 @@ func c08WatchClosed(c *Ctx) {
 		return
 	}
 	n, bad := 0, ""
+	// the goroutine body: a closure of linkStateWatcher, or (when it was made a method or a named
+	// function) whatever function of the package returns ErrLinkChange on a path
+	cands := map[*ssa.Function]bool{}
 	for _, f := range an.WithAnon(lw) {
-		if f == lw {
+		if f != lw {
+			cands[f] = true
+		}
+	}
+	for _, f := range c.srcFuncs() {
+		if f.Pkg == nil || f.Pkg.Pkg.Path() != PkgCorerad || cands[f] || f == lw {
 			continue
 		}
+		for _, b := range f.Blocks {
+			for _, in := range b.Instrs {
+				if u, ok := in.(*ssa.UnOp); ok && u.Op == token.MUL {
+					if g, ok := u.X.(*ssa.Global); ok && g.Name() == "ErrLinkChange" && g.Pkg != nil && g.Pkg.Pkg.Path() == PkgSystem {
+						if _, isErr := f.Signature.Results().At(max(f.Signature.Results().Len()-1, 0)).Type().Underlying().(*types.Interface); f.Signature.Results().Len() == 1 && isErr {
+							cands[f] = true
+						}
+					}
+				}
+			}
+		}
+	}
+	var fl []*ssa.Function
+	for f := range cands {
+		fl = append(fl, f)
+	}
+	sort.Slice(fl, func(i, j int) bool { return fl[i].String() < fl[j].String() })
+	for _, f := range fl {
 		for _, p := range c.pathsO("R-C08-7", f, an.PathOpts{EmitCut: true}) {
 			if p.Ret == nil || len(p.Results) != 1 || !(p.Results[0].Op == an.OpGlobal && p.Results[0].Name == "system.ErrLinkChange") {
 				continue
@@ -1027,5 +1054,5 @@ func tasksDoNotSchedule(c *Ctx, rule string) {
 				"a task that re-schedules itself calls Delay after Group.Wait when a stop request arrives while it runs: schedgroup panics instead of a clean stop with a final RA")
 		}
 	}
-	c.R.Check(n >= 2, rule, "corerad:schedule-sites", "", "", fmt.Sprintf("%d Delay/Schedule call site(s)", n), ">= 2", "anchor-missing")
+	c.R.Check(n >= 1, rule, "corerad:schedule-sites", "", "", fmt.Sprintf("%d Delay/Schedule call site(s)", n), ">= 1", "anchor-missing")
 }
